@@ -349,6 +349,15 @@ func envInt(k string, def int) int {
 	return def
 }
 
+// TestRestartChild is the process RestartCheck starts.
+func TestRestartChild(t *testing.T) {
+	sp := os.Getenv("VERIF_RESTART_SPEC")
+	if sp == "" {
+		t.Skip("not a restart child")
+	}
+	RestartChildMain(sp)
+}
+
 func TestAftersun(t *testing.T) {
 	bin := os.Getenv("VERIF_AFTERSUN_BIN")
 	outp := os.Getenv("VERIF_OUT")
